@@ -24,7 +24,12 @@ type Ctx struct {
 	Verif    string
 	Thorough bool
 
-	cfgs map[*ast.FuncDecl]*cfg.CFG
+	cfgs     map[*ast.FuncDecl]*cfg.CFG
+	mods     map[*ssa.Function]map[string]bool
+	mapLits  map[string]int64
+	nullable map[*ssa.Function]map[int]bool
+	mayNilFn func(v ssa.Value, seen map[ssa.Value]bool) bool
+	derefs   map[*ssa.Function]map[int]bool
 }
 
 // Package paths of the module under analysis.
@@ -63,8 +68,10 @@ func FuncShort(fn *ssa.Function) string {
 	return s
 }
 
-// DeclShort names an ast.FuncDecl as pkgname.(T).M.
+// DeclShort names an ast.FuncDecl in the same format as FuncShort:
+// pkg.F, (*pkg.T).M or (pkg.T).M with the module prefix stripped.
 func DeclShort(pk *packages.Package, fd *ast.FuncDecl) string {
+	p := strings.TrimPrefix(strings.TrimPrefix(pk.PkgPath, "Havoc/pkg/"), "Havoc/cmd/")
 	name := fd.Name.Name
 	if fd.Recv != nil && len(fd.Recv.List) > 0 {
 		t := fd.Recv.List[0].Type
@@ -74,10 +81,9 @@ func DeclShort(pk *packages.Package, fd *ast.FuncDecl) string {
 			star = "*"
 		}
 		if id, ok := t.(*ast.Ident); ok {
-			name = "(" + star + id.Name + ")." + name
+			return "(" + star + p + "." + id.Name + ")." + name
 		}
 	}
-	p := strings.TrimPrefix(strings.TrimPrefix(pk.PkgPath, "Havoc/pkg/"), "Havoc/cmd/")
 	return p + "." + name
 }
 
